@@ -77,6 +77,33 @@ func (s *vf8StepReader) Read(p []byte) (int, error) {
 	return s.r.Read(p)
 }
 
+// vf8BytesReader behaves like the *bytes.Reader the servers hand to the disk
+// layer for action-cache values: it offers WriteTo (the whole value in ONE
+// write step, which is what io.Copy uses) as well as Read. Both are points,
+// so that a write path which falls back to slice-wise Read/Write becomes
+// visible as crash points between its slices.
+type vf8BytesReader struct {
+	data []byte
+	pos  int
+}
+
+func (b *vf8BytesReader) Read(p []byte) (int, error) {
+	vsched.Step("harness.read", "")
+	if b.pos >= len(b.data) {
+		return 0, io.EOF
+	}
+	n := copy(p, b.data[b.pos:])
+	b.pos += n
+	return n, nil
+}
+
+func (b *vf8BytesReader) WriteTo(w io.Writer) (int64, error) {
+	vsched.Step("harness.writeto", "")
+	n, err := w.Write(b.data[b.pos:])
+	b.pos += n
+	return int64(n), err
+}
+
 func vf8Snapshot(dir string) map[string]vf8File {
 	out := map[string]vf8File{}
 	for rel := range VfListHot(dir) {
@@ -104,7 +131,11 @@ func (r *vf8Run) put(k *vf8Key, vi int, declaredHash string) error {
 	if declaredHash != "" {
 		hash = declaredHash
 	}
-	err := r.cc.Put(context.Background(), k.kind, hash, int64(len(data)), &vf8StepReader{bytes.NewReader(data)})
+	var rd io.Reader = &vf8StepReader{bytes.NewReader(data)} // CAS uploads stream (HTTP body, ByteStream pipe)
+	if k.kind != cache.CAS {
+		rd = &vf8BytesReader{data: data} // AC/RAW values arrive as one in-memory buffer
+	}
+	err := r.cc.Put(context.Background(), k.kind, hash, int64(len(data)), rd)
 	if err == nil && declaredHash == "" {
 		r.acked[cache.LookupKey(k.kind, k.hash)] = vi
 	}
@@ -119,6 +150,7 @@ func vf8Histories(mode string) []*vf8Hist {
 	C := mkCAS(vlib.Bytes("c08-C", 250, true))
 	ack := strings.Repeat("c8", 32)
 	K := &vf8Key{kind: cache.AC, hash: ack, values: [][]byte{vlib.Bytes("c08-v1", 60, false), vlib.Bytes("c08-v2", 90, false)}}
+	L := &vf8Key{kind: cache.AC, hash: strings.Repeat("d9", 32), values: [][]byte{vlib.Bytes("c08-large-ac", 100<<10, false)}}
 	keyOf := func(k *vf8Key) string { return cache.LookupKey(k.kind, k.hash) }
 	ks := func(keys ...*vf8Key) map[string]*vf8Key {
 		m := map[string]*vf8Key{}
@@ -136,6 +168,7 @@ func vf8Histories(mode string) []*vf8Hist {
 			_ = h.put(A, 0, other)
 			_ = h.put(A, 0, "")
 		}},
+		{name: "H6-ac-large", max: 1 << 20, keys: ks(L), run: func(h *vf8Run) { _ = h.put(L, 0, "") }},
 		{name: "H4-evict", max: 8192, keys: ks(A, B, C), evicted: map[string]bool{keyOf(A): true, keyOf(B): true}, run: func(h *vf8Run) {
 			_ = h.put(A, 0, "")
 			_ = h.put(B, 0, "")
@@ -396,7 +429,16 @@ func vf8Check(rep *vlib.Report, h *vf8Hist, dir string, img vf8Image, modeBefore
 					if k.kind != cache.CAS {
 						kindOf = "a value that is not byte-identical to any completed upload"
 					}
-					rep.Violate(cls+" torn or foreign value served ("+k.kind.String()+", size "+sizeClass(p.size)+")", fmt.Sprintf("%s: %s returned %d bytes: %s", id, what, len(data), kindOf), replay)
+					// which crash state: a real point between two file-system steps (the property's
+					// crash model) or a tear inside one write step (power-loss model, beyond it)
+					tear := "between steps, partial value"
+					switch {
+					case torn:
+						tear = "inside one write step"
+					case len(data) == 0:
+						tear = "between steps, empty file"
+					}
+					rep.Violate(cls+" torn or foreign value served ("+k.kind.String()+", size "+sizeClass(p.size)+"; "+tear+")", fmt.Sprintf("%s: %s returned %d bytes: %s", id, what, len(data), kindOf), replay)
 					return
 				}
 				if reported != int64(len(data)) {
